@@ -34,13 +34,17 @@ def t_two_loops(rng):
     lo = _c(rng, [0, 0, 1])
     hi = _c(rng, ["n", "n", "n - 1"])
     c = _c(rng, ["2.0", "3.0", "0.5"])
-    second = _c(rng, [f"y[i] += x[i] * {c}", f"y[i] = y[i] + x[i]", f"z[i] = y[i] * {c}"])
+    # second loop: same bounds, or a larger lower bound with a shifted index
+    d = _c(rng, [0, 0, 1, 2])
+    lo2 = lo + d
+    idx = "i" if d == 0 else f"i - {d}"
+    second = _c(rng, [f"y[{idx}] += x[i] * {c}", f"y[{idx}] = y[{idx}] + x[i]", f"z[{idx}] = y[i] * {c}"])
     body = f"""@proc
 def root(n: size, x: f32[n], y: f32[n], z: f32[n]):
-    assert n >= 2
+    assert n >= {max(2, lo2 + 1)}
     for i in seq({lo}, {hi}):
         y[i] = {_c(rng, ['0.0', 'x[i]', '1.0'])}
-    for i in seq({lo}, {hi}):
+    for i in seq({lo2}, {hi}):
         {second}
     for i in seq(0, n):
         z[i] = z[i] + y[i]
